@@ -1277,3 +1277,59 @@ func sfErrCmp(info *types.Info, e ast.Expr) bool {
 	t := info.TypeOf(a)
 	return t != nil && types.Identical(t, types.Universe.Lookup("error").Type())
 }
+
+// sfBoolResolve follows a boolean expression through single-definition locals,
+// helper parameters and one-line boolean helpers (`return <expr>`) to the
+// expression that really decides it (with the context it must be read in).
+func sfBoolResolve(c *sfCtx, e ast.Expr) (*sfCtx, ast.Expr) {
+	for i := 0; i < 6; i++ {
+		e = ast.Unparen(e)
+		switch x := e.(type) {
+		case *ast.Ident:
+			obj := c.fn.Info().ObjectOf(x)
+			if pi := sfParamIdx(c.fn, obj); pi != -1 {
+				if c.parent == nil || c.arg(pi) == nil {
+					return c, e
+				}
+				c, e = c.parent, c.arg(pi)
+				continue
+			}
+			d := sfSingleDef(c.fn, obj)
+			if d == nil {
+				return c, e
+			}
+			e = d
+			continue
+		case *ast.CallExpr:
+			h := c.enter(x, 6)
+			if h == nil {
+				return c, e
+			}
+			rs := sfReturns(h.fn)
+			if len(rs) != 1 || len(rs[0].Results) != 1 || len(h.fn.Body.List) != 1 {
+				return c, e
+			}
+			c, e = h, rs[0].Results[0]
+			continue
+		}
+		return c, e
+	}
+	return c, e
+}
+
+// sfAtomicFacts drops the composite (&&, ||, !) facts, keeping the atoms that were split out of them
+// and the composites that could not be split.
+func sfAtomicFacts(facts []sfFact) []sfFact {
+	var out []sfFact
+	for _, ft := range facts {
+		e := ast.Unparen(ft.e)
+		if u, ok := e.(*ast.UnaryExpr); ok && u.Op == token.NOT {
+			continue
+		}
+		if b, ok := e.(*ast.BinaryExpr); ok && ((b.Op == token.LAND && ft.val) || (b.Op == token.LOR && !ft.val)) {
+			continue
+		}
+		out = append(out, ft)
+	}
+	return out
+}
